@@ -24,7 +24,7 @@ MANIFEST = {
             "Beyond that, sufficiency of the guards and the behaviour of "
             "the transformed Fortran are NOT decided.",
     "technique": "must-pass-through (path-sensitive CFG reachability) over "
-                 "a reviewed obligation table",
+                 "a reviewed obligation table + refusal-weakening check against the reviewed guard snapshot",
 }
 SUPER = ("super().validate(", "super(LoopTiling2DTrans, self).validate(")
 TABLE = {
